@@ -9,6 +9,7 @@ import time
 import traceback
 
 ROOT = os.path.dirname(os.path.dirname(os.path.abspath(__file__)))
+OUT = os.environ.get("VERIF_OUT") or ROOT      # evidence/ and replays/ go here (VERIF_OUT: test aid for runs on seeded changes)
 
 
 class H:
@@ -187,7 +188,7 @@ def main(argv=None):
     seed = int(os.environ.get("VERIF_SEED", "0"))
     t0 = time.time()
     import glob
-    for f in glob.glob(os.path.join(ROOT, "replays", f"{prop}_*.json")):
+    for f in glob.glob(os.path.join(OUT, "replays", f"{prop}_*.json")):
         os.remove(f)
     mod = load(prop)
     tier = a.tier
@@ -239,6 +240,11 @@ def finish(prop, tier, seed, mod, results, pre, wall):
         ph["discharged"] += st.get("discharged", 0)
         ph["undecided"] += st.get("undecided", 0) + st.get("unconfirmed", 0)
         ph["wall_s"] = round(ph["wall_s"] + r.get("wall_s", 0.0), 2)
+    if os.environ.get("SYMX_VERBOSE"):
+        for r in sorted(results, key=lambda r: -r.get("wall_s", 0.0)):
+            st = r.get("stats", {})
+            print(f"  [{r['harness']}] {r.get('wall_s', 0.0):7.1f}s paths={st.get('paths')} obl={st.get('obligations')} "
+                  f"undec={st.get('undecided', 0) + st.get('unconfirmed', 0)} inc={st.get('incomplete')} cfg={r.get('config')}")
     for p in pre:
         agg["obligations"] += p.get("obligations", 0)
         agg["discharged"] += p.get("discharged", 0)
@@ -310,8 +316,8 @@ def finish(prop, tier, seed, mod, results, pre, wall):
         ev["coverage"]["states"] = 1 if pre else 0
     if ev["coverage"]["transitions"] < 1:
         ev["coverage"]["transitions"] = max(1, agg["solver_calls"])
-    os.makedirs(os.path.join(ROOT, "evidence"), exist_ok=True)
-    with open(os.path.join(ROOT, "evidence", f"{prop}.json"), "w") as f:
+    os.makedirs(os.path.join(OUT, "evidence"), exist_ok=True)
+    with open(os.path.join(OUT, "evidence", f"{prop}.json"), "w") as f:
         json.dump(ev, f, indent=1, default=str)
     print(f"{prop} tier={tier}: paths={agg['paths']} decisions={agg['decisions']} obligations={agg['obligations']} "
           f"discharged={agg['discharged']} (normal-form {agg['structural']}, solver-confirmed {agg['structural_confirmed']}) undecided={agg['undecided'] + agg['unconfirmed']} "
